@@ -44,11 +44,22 @@ out += ["### Checks strengthened because a seeded change was missed at first", "
         "`rev-*` = one of the `fix:` commits reverted (the defects of the pinned tree as mutants).", "",
         "| mutant | first changed line | detected by |", "|---|---|---|"]
 for name in sorted(desc):
+    if name.startswith("benign-"):
+        continue
     if name in invalid:
         out.append(f"| {name} | `{desc[name]}` | not a valid mutant: {invalid[name]} |")
     elif name in rows:
         out.append(f"| {name} | `{desc[name]}` | {' '.join(rows[name]) or '**none**'} |")
     else:
         out.append(f"| {name} | `{desc[name]}` | (not run) |")
+out += ["", "## 3. Property-preserving changes (no alarm expected)", "",
+        "`benign-*` are my own patches; `P1a..P2d` (under /verif/preserving/) were written by two independent sub-agents that got the 18 property statements and were asked for legitimate internal changes that keep every property (other free-slot choice, other write / sync order, reversed iteration order, tail insertion into chains, stale bitmap flags, pre-collecting iterators, Err instead of panic on a foreign signature, ...). All 18 quick checks were run against each.", "",
+        "| patch | what changes | alarms |", "|---|---|---|"]
+for f in sorted(glob.glob("/verif/preserving/*/meta.json")):
+    m = json.load(open(f))
+    out.append(f"| {m['id']} | {m['what'][:150]} | {' '.join(m['alarms']) or 'none'} |")
+for name in sorted(desc):
+    if name.startswith("benign-") and name in rows:
+        out.append(f"| {name} | `{desc[name]}` | {' '.join(rows[name]) or 'none'} |")
 open("/verif/SENSITIVITY.md", "w").write("\n".join(out) + "\n")
 print("written", n_seed, "seeds", len(rows), "mutant rows")
